@@ -35,9 +35,8 @@ var entryHooks = []entryHook{
 	{File: "lib/authutil/authutil.go", Recv: "", Func: "CheckLDAPConnection", Var: "CheckLDAPConnection"},
 	{File: "lib/authutil/authutil.go", Recv: "", Func: "GetLDAPUserGroups", Var: "GetLDAPUserGroups"},
 	{File: "lib/authutil/authutil.go", Recv: "", Func: "GetLDAPUserAttributes", Var: "GetLDAPUserAttributes"},
-	{File: "lib/vip/vip.go", Recv: "Client", Func: "ValidateUserOTP", Var: "VipValidateUserOTP"},
-	{File: "lib/vip/vip.go", Recv: "Client", Func: "StartUserVIPPush", Var: "VipStartUserVIPPush"},
-	{File: "lib/vip/vip.go", Recv: "Client", Func: "VipPushHasBeenApproved", Var: "VipPushHasBeenApproved"},
+	// the VIP service is simulated at the wire: the real request building and response evaluation of lib/vip run
+	{File: "lib/vip/vip.go", Recv: "Client", Func: "postBytesVip", Var: "VipPostBytes"},
 	{File: "keymasterd/eventnotifier/impl.go", Recv: "EventNotifier", Func: "publishCert", Var: "EventPublishCert", Observe: true},
 }
 
